@@ -67,3 +67,10 @@ let fnv (s : string) : string =
   let h = ref 0xcbf29ce484222325L in
   String.iter (fun c -> h := Int64.logxor !h (Int64.of_int (Char.code c)); h := Int64.mul !h 0x100000001b3L) s;
   Printf.sprintf "%Lx" !h
+
+let ascii_of_char (c : char) : ascii =
+  let n = Char.code c in
+  Ascii (n land 1 <> 0, n land 2 <> 0, n land 4 <> 0, n land 8 <> 0, n land 16 <> 0, n land 32 <> 0, n land 64 <> 0, n land 128 <> 0)
+let coq_of_string (s : string) : cstring =
+  let r = ref EmptyString in
+  for i = String.length s - 1 downto 0 do r := String (ascii_of_char s.[i], !r) done; !r
